@@ -200,13 +200,21 @@ Range loosen(vh::Rng& r, uint32_t first, uint32_t last) {
 void run_time_range_block(vh::Case& c, const Range& g, i128 P, const std::vector<uint64_t>& primes, const std::string& kind, int nvals) {
   uint64_t salt = c.rng.next();
   std::vector<i128> vals = directed_values(P, primes, c.rng, nvals);
-  bool ops_ok = P <= kOpsMaxProduct;
-  bool use_ops = ops_ok && c.rng.chance(1, 2);
+  // The operator class documents "product^2 fits an unsigned int" but only its fused methods are marked "not overflow
+  // safe"; its other methods are written overflow-safe and the repository's own test drives them with the range [3,30]
+  // (product 3234846615), so they are checked for every product that fits the element type (the property's quantifier);
+  // the fused methods only within the documented bound.
+  bool ops_fused_ok = P <= kOpsMaxProduct;
+  bool use_ops = c.rng.chance(1, 2);
   if (use_ops) {
-    std::vector<i128> red = reduced_only(vals, P);
-    if (red.size() > 40) red.resize(40);
     ops_small_block(c, g, vals, vals, {}, kind, salt);
-    ops_small_block(c, g, red, red, red, kind + "_fused", salt);
+    if (P > kOpsMaxProduct) c.count("state.ops_class_product_above_2^16");
+    if (P > ((i128)1 << 31)) c.count("state.ops_class_product_above_2^31");
+    if (ops_fused_ok) {
+      std::vector<i128> red = reduced_only(vals, P);
+      if (red.size() > 40) red.resize(40);
+      ops_small_block(c, g, red, red, red, kind + "_fused", salt);
+    }
   } else {
     shared_block(c, g, vals, vals, false, kind, salt);
   }
